@@ -12,11 +12,13 @@ VARIABLE trace
 pvars == <<st, tx, hist, last, trace>>
 
 PInit(Start) == InitOver({Start}) /\ trace = <<>>
-PStep(m, Depth) ==
+\* one transaction with a given ledger fault schedule (<<>> = the ledger cooperates)
+PStepF(m, f, Depth) ==
   /\ tx.pc = "idle" /\ Len(trace) < Depth
-  /\ LET r == Run(st, m, <<>>) IN
+  /\ LET r == Run(st, m, f) IN
      /\ st' = r.post /\ last' = r.out /\ hist' = HistExtend(hist, r.out) /\ tx' = Idle
-     /\ trace' = Append(trace, [msg |-> m, faults |-> <<>>])
+     /\ trace' = Append(trace, [msg |-> m, faults |-> f])
+PStep(m, Depth) == PStepF(m, <<>>, Depth)
 PDone(Start, Depth) ==
   /\ Len(trace) = Depth
   /\ PrintT(ToJson([init |-> Start, events |-> trace]))
